@@ -358,3 +358,12 @@ impl<S: BarrierSemantics> Barrier<S::VM> for SATBBarrier<S> {
         unimplemented!()
     }
 }
+
+/// Verification hook (only with `--cfg mmtk_verif`): the private `log_object` transition.
+#[cfg(mmtk_verif)]
+impl<S: BarrierSemantics> ObjectBarrier<S> {
+    /// `ObjectBarrier::log_object(object)`.
+    pub fn verif_log_object(&self, object: ObjectReference) -> bool {
+        self.log_object(object)
+    }
+}
